@@ -39,6 +39,7 @@ type c03Frame struct {
 	Cap      int     `json:"cap"`    // capacity of the frame buffer
 	Junk     byte    `json:"junk"`   // pre-existing buffer content seed
 	Append   bool    `json:"append"` // AppendPayload (copy) vs SetPayload (in place)
+	First    int     `json:"first"`  // > 0: the headers are first given a payload of this length, then the real one (a body re-sized on the same header)
 	EchoType byte    `json:"echo_type"`
 	EchoCode byte    `json:"echo_code"`
 	EchoID   uint16  `json:"echo_id"`
@@ -74,6 +75,13 @@ func c03BuildFrame(c c03Frame) (frame []byte, tooBig bool, err error) {
 			udp := packet.EncodeUDP(room, c.Sport, c.Dport)
 			if udp == nil {
 				return packet.ErrPayloadTooBig
+			}
+			if c.First > 0 && cap(udp)-8 >= c.First { // a first body on the same header; the header value keeps its 8 bytes
+				if c.Append {
+					udp.AppendPayload(make([]byte, c.First))
+				} else {
+					udp.SetPayload(udp[:cap(udp)][8 : 8+c.First])
+				}
 			}
 			if c.Append {
 				u, err := udp.AppendPayload(c.Payload)
@@ -112,6 +120,13 @@ func c03BuildFrame(c c03Frame) (frame []byte, tooBig bool, err error) {
 		if err := mk(ip6.Payload()[:0:cap(ip6)-40]); err != nil {
 			return nil, errors.Is(err, packet.ErrPayloadTooBig), err
 		}
+		if c.First > 0 && cap(ip6)-40 >= c.First {
+			if c.Append {
+				ip6.AppendPayload(append(make([]byte, 0, c.First), l4[:min(len(l4), c.First)]...), proto)
+			} else {
+				ip6.SetPayload(ip6[:cap(ip6)][40:40+c.First], proto)
+			}
+		}
 		if c.Append {
 			cp := append([]byte{}, l4...) // non-nil: IP6.AppendPayload treats a nil payload as a caller error
 			ip6, err = ip6.AppendPayload(cp, proto)
@@ -128,6 +143,13 @@ func c03BuildFrame(c c03Frame) (frame []byte, tooBig bool, err error) {
 	room := ip4.Payload()
 	if err := mk(room[:0:cap(room)]); err != nil {
 		return nil, errors.Is(err, packet.ErrPayloadTooBig), err
+	}
+	if c.First > 0 && cap(ip4)-20 >= c.First {
+		if c.Append {
+			ip4.AppendPayload(append(make([]byte, 0, c.First), l4[:min(len(l4), c.First)]...), proto)
+		} else {
+			ip4.SetPayload(ip4[:cap(ip4)][20:20+c.First], proto)
+		}
 	}
 	if c.Append {
 		cp := append([]byte{}, l4...) // non-nil: IP6.AppendPayload treats a nil payload as a caller error
@@ -759,6 +781,9 @@ func TestC03(t *testing.T) {
 			n = 0
 		}
 		c.Payload = gen.Bytes(t, n, "payload")
+		if rapid.IntRange(0, 3).Draw(t, "resized") == 0 {
+			c.First = rapid.IntRange(1, 300).Draw(t, "first")
+		}
 		return c
 	}, func(tb drv.TB, c c03Frame) { c03CheckFrame(tb, rec, "frames", c) })
 
